@@ -16,7 +16,8 @@ EVIDENCE = dict(
          "outside their ranges. Added sources: a 270-module project, MetaModules over negative-minimum targets and chained "
          "through nested MetaModules, consecutive Samplers, files beyond nominal ranges behind containers (these must load), files "
          "with conflicting slot claims (known finding). non-trivial = a mutated source or one with at least 2 modules."
-         " Deterministic boundary objects (MIDI-out names, named patterns, options all off) are among the sources.",
+         " Deterministic boundary objects (MIDI-out names, named patterns, options all off) are among the sources."
+         " CHFR / CHFF words zeroed (at every depth) in every instrument-bearing source.",
     explanation="histories: n load/save cycles per source")
 
 
